@@ -8,11 +8,14 @@ def run(ctx):
         "hand model coq/model/CompBasis.v of _add_single_pauli/_add_pauli (exact: N bit operations, Z phase), tied to "
         "the code by vm_compute correspondence (corr_C16.py) and AST fingerprints",
         "documented Pauli matrices (coq/lib/Gates.v)",
-        "partial: mixed Pauli/non-Pauli chains and the X-gate preparation part of comp_basis_superposition are decided by the dense numpy sweep "
-        "(no theorem yet); lowest_bit_index's 64-bit limit is a stated precondition",
+        "hand model coq/model/PrepCircuit.v of ComputationalBasisState.circuit (X on every set bit below n_qubits), tied by vm_compute "
+        "correspondence on registers up to 130 qubits; the shape of the general state returned for chains with a non-Pauli gate "
+        "(circuit + gates on the same register) is checked on the real objects",
+        "partial: the gates of a mixed chain are arbitrary operators in mixed_chain_state (their matrices are C01 / documented-matrix "
+        "territory) and the derivation histories are decided by the dense numpy sweep; lowest_bit_index's 64-bit limit is a stated precondition",
     ]
     fingerprint.check(ctx, "packages/core/quri_parts/core/state/comp_basis.py",
-                      ["_add_single_pauli", "_add_pauli", "ComputationalBasisState.with_gates_applied",
+                      ["_add_single_pauli", "_add_pauli", "ComputationalBasisState.circuit", "ComputationalBasisState.with_gates_applied",
                        "ComputationalBasisState.with_pauli_gate_applied", "comp_basis_superposition"])
     fingerprint.check(ctx, "packages/core/quri_parts/core/utils/bit.py", ["get_bit", "lowest_bit_index", "different_bit_index"])
     ctx.coq([], ["C16.v"])
